@@ -348,7 +348,10 @@ class Ctx:
         cov['distinct_nontrivial'] = len(self._distinct)
         tb = [
             "Coq 8.16.1 kernel (coqc, full .vo build; vm_compute used, native_compute not used)",
-            "tools/translate.py (fail-closed Python-ast -> Gallina translator; regenerates coq/Gen/*.v from the current source)",
+            "tools/translate.py (fail-closed Python-ast -> Gallina translator; regenerates coq/Gen/*.v from the current source: constants, the pure "
+            "methods of _dns.py, regex classes, and the ordering comparisons of the hand-modelled methods - Gen/Sites.v - from which 36 comparisons of "
+            "the model definitions are built by `Eval cbv`; the site locator matches operands textually modulo local aliases, mirroring, negation and "
+            "branch order, so a wholesale inversion of a condition is NOT seen by it and is left to the differential side)",
             "correspondence harness (lib/, props/): implementation and model run on the same inputs, compared inside Coq by val_eqb",
             "CPython 3.12 semantics of the implementation under test",
         ]
